@@ -37,6 +37,7 @@ struct EncScenario : Scenario {
         p.ops.push_back({"ELEM", {1}, {}});
         int extra = enumerate ? 2 : r.range(1, 4);
         for (int i = 0; i < extra; i++) p.ops.push_back({"ELEM", {r.range(2, 4)}, {rhex(r, 32), rhex(r, 32), rhex(r, 47)}});
+        p.ops.push_back({"ELEM", {3}, {rhex(r, 32), rhex(r, 32), strf("zraw:%d:%d", r.range(1, 10), r.range(1, 3))}});
         p.ops.push_back({"ELEM", {7}, {rhex(r, 32)}});     // identity by flag, coordinates left over
         p.ops.push_back({"ELEM", {5}, {rhex(r, 32)}});     // element whose x is small enough for x+q to fit (for plusq)
         for (int wi = 0; wi < (g == 1 ? 2 : 4); wi++) p.ops.push_back({"ELEM", {6, wi}, {}});    // subgroup elements with one coordinate sharing its top 32-bit word with q: boundary of every word-wise "coordinate < q" comparison
@@ -121,15 +122,20 @@ struct EncScenario : Scenario {
                     // non-normalised projective representative, converted through the API
                     std::vector<uint8_t> k2 = op.s.size() > 1 ? unhex(op.s[1]) : std::vector<uint8_t>(32, 1); k2.resize(32);
                     std::vector<uint8_t> lam = op.s.size() > 2 ? unhex(op.s[2]) : std::vector<uint8_t>(47, 3); lam.resize(48); lam[47] = 0; if (lam[0] == 0) lam[0] = 2;
+                    // "zraw:<j>:<t>": the representative's z is chosen by its STORED (internal-form) value t*2^(32j) - whole low machine words zero, the
+                    // shape on which a word-wise loop of the inversion (shift out the trailing zeros, test the low word) has nothing to look at
+                    bool zraw = op.s.size() > 2 && op.s[2].compare(0, 5, "zraw:") == 0;
+                    if (zraw) { int j = 2, t = 1; sscanf(op.s[2].c_str() + 5, "%d:%d", &j, &t); static const Bn Rinv = Bn::powmod(Bn::mod(Bn(1).shl(384), K().q), Bn::sub(K().q, Bn(2)), K().q);
+                        Bn raw = Bn((uint64_t) (t ? t : 1)).shl(32 * (j % 11)); Bn l = Bn::mulmod(raw, Rinv, K().q); lam.assign(48, 0); l.to_le(lam.data(), 48); env.count("fault:projective_representative_whose_stored_z_has_zero_low_words"); }
                     env.lib_calls += 4;
                     if (g == 1) {
                         Buf gen(R.sz(JV_SZ_G1A)); R.jv_const_get(JV_EK_G1A, 1, gen); G1v p, q2, s;
-                        R.jv_g1_multiply_affine(c.view, p.b, gen, k.data());
+                        R.jv_g1_multiply_affine(c.view, p.b, gen, k.data()); if (zraw) { Buf t1(R.sz(JV_SZ_G1A)); R.jv_g1affine_from_projective(1, t1, p.b); R.jv_g1_from_affine(1, p.b, t1); }
                         if (src == 4) { R.jv_g1_multiply_affine(c.view, q2.b, gen, k2.data()); R.jv_g1_add(c.view, s.b, p.b, q2.b); } else R.jv_g1_scale_z(s.b, p.b, lam.data());
                         R.jv_g1affine_from_projective(c.view, a, s.b);
                     } else {
                         Buf gen(R.sz(JV_SZ_G2A)); R.jv_const_get(JV_EK_G2A, 1, gen); G2v p, q2, s;
-                        R.jv_g2_multiply_affine(c.view, p.b, gen, k.data());
+                        R.jv_g2_multiply_affine(c.view, p.b, gen, k.data()); if (zraw) { Buf t2(R.sz(JV_SZ_G2A)); R.jv_g2affine_from_projective(1, t2, p.b); R.jv_g2_from_affine(1, p.b, t2); }
                         if (src == 4) { R.jv_g2_multiply_affine(c.view, q2.b, gen, k2.data()); R.jv_g2_add(c.view, s.b, p.b, q2.b); } else R.jv_g2_scale_z(s.b, p.b, lam.data());
                         R.jv_g2affine_from_projective(c.view, a, s.b);
                     }
